@@ -406,9 +406,8 @@ tp_task_stop(tp_task_p tptask) {
 	if (NULL == tptask)
 		return;
 	tpt_ev_del_args1(tptask->event, &tptask->tp_data);
-	if (0 != tptask->timeout) {
-		tpt_ev_del_args1(TP_EV_TIMER, &tptask->tp_timer);
-	}
+	/* Not only if timeout is set: connect_ex() use timer for retry delay. */
+	tpt_ev_del_args1(TP_EV_TIMER, &tptask->tp_timer);
 }
 
 
